@@ -817,20 +817,45 @@ struct ConcRun
         //      value provenance (C01) and truthful observers (C02)
         if (!out.v.any() && !conc_is_tsan_build())
         {
-            std::map<uint32_t, int> writer; // value id -> key it was written under (values are unique per write)
-            auto                    reg = [&](const Op& o) {
-                if (o.kind == OpKind::insert)
-                    writer[o.val] = o.key;
-                else if (o.kind == OpKind::insert_range)
-                    for (auto& it : o.items)
-                        writer[it.val] = it.key;
-            };
-            for (auto& o : plan.prefill)
-                reg(o);
+            std::map<uint32_t, int>     writer;  // value id -> key it was written under (values are unique per write)
+            std::map<uint32_t, int64_t> dies_by; // value id -> instant at or after which it cannot be served any more
+            // the longest TTL a uniform-TTL container can have had in force at any time of this plan
+            int64_t ttl_max = plan.cfg.ttl_ms;
             for (auto& e : plan.epochs)
                 for (auto& c : e.clients)
                     for (auto& o : c)
-                        reg(o);
+                        if (o.kind == OpKind::update_ttl)
+                            ttl_max = std::max(ttl_max, o.ttl_ms);
+            for (auto& o : plan.prefill)
+                if (o.kind == OpKind::update_ttl)
+                    ttl_max = std::max(ttl_max, o.ttl_ms);
+            auto reg = [&](const Op& o, int64_t t) {
+                auto one = [&](int key, uint32_t val, int64_t ttl_ms) {
+                    writer[val] = key;
+                    if (tr.ttl == TtlMode::per_entry)
+                        dies_by[val] = t + ttl_ms * MS;
+                    else if (tr.ttl == TtlMode::uniform)
+                        dies_by[val] = t + ttl_max * MS;
+                };
+                if (o.kind == OpKind::insert)
+                    one(o.key, o.val, o.ttl_ms);
+                else if (o.kind == OpKind::insert_range)
+                    for (auto& it : o.items)
+                        one(it.key, it.val, it.ttl_ms);
+            };
+            for (auto& o : plan.prefill)
+                reg(o, plan.clock_start);
+            for (size_t e = 0; e < plan.epochs.size(); ++e)
+                for (auto& c : plan.epochs[e].clients)
+                    for (auto& o : c)
+                        reg(o, etime[e]);
+            // a value served at or after the last instant any write of it could still be alive (C04)
+            auto stale = [&](int64_t hit, int64_t val, int64_t t) {
+                if (!hit || !tr.has_values)
+                    return false;
+                auto it = dies_by.find((uint32_t)val);
+                return it != dies_by.end() && t >= it->second;
+            };
             auto foreign = [&](int key, int64_t hit, int64_t val) {
                 if (!hit || !tr.has_values)
                     return false;
@@ -844,6 +869,20 @@ struct ConcRun
                 if (!o.completed || out.v.any())
                     continue;
                 const Result& r = o.res;
+                if (tr.ttl != TtlMode::none)
+                {
+                    out.st.counters["eval.C04"]++;
+                    bool bad = false;
+                    if ((o.op.kind == OpKind::find || o.op.kind == OpKind::find_uc) && r.size() >= 2)
+                        bad = stale(r[0], r[1], o.time);
+                    if (o.op.kind == OpKind::find_range || o.op.kind == OpKind::find_fill)
+                        for (size_t i = 0; i + 3 <= r.size(); i += 3)
+                            bad = bad || stale(r[i + 1], r[i + 2], o.time);
+                    if (bad)
+                        fail({"C04", "C06"}, "conc.expired_served",
+                             "a lookup by client " + std::to_string(o.client) + " at t=" + std::to_string(o.time) +
+                                 " returned a value whose TTL had elapsed whatever the order of the calls");
+                }
                 if ((o.op.kind == OpKind::find || o.op.kind == OpKind::find_uc) && r.size() >= 2 && foreign(o.op.key, r[0], r[1]))
                     fail({"C01", "C06"}, "conc.foreign_value",
                          "lookup of key " + std::to_string(o.op.key) + " by client " + std::to_string(o.client) + " returned value " +
@@ -883,6 +922,9 @@ struct ConcRun
                 for (int k = 0; k < (int)plan.cfg.universe; ++k)
                 {
                     found += final_conc[(size_t)k * 3];
+                    if (tr.ttl != TtlMode::none && stale(final_conc[(size_t)k * 3], final_conc[(size_t)k * 3 + 1], tend))
+                        fail({"C04", "C06"}, "conc.expired_served_final",
+                             "after the run key " + std::to_string(k) + " still serves a value whose TTL had elapsed whatever the order of the calls");
                     if (foreign(k, final_conc[(size_t)k * 3], final_conc[(size_t)k * 3 + 1]))
                         fail({"C01", "C06"}, "conc.foreign_value_final",
                              "after the run key " + std::to_string(k) + " holds value " + std::to_string(final_conc[(size_t)k * 3 + 1]) +
@@ -951,7 +993,10 @@ struct ConcRun
                     if (tr.has_uc)
                         out.st.nontrivial.insert("C11");
                     if (tr.has_clean)
+                    {
                         out.st.nontrivial.insert("C17");
+                        out.st.nontrivial.insert("C04");
+                    }
                     out.st.nontrivial.insert("C18");
                 }
             }
